@@ -19,7 +19,8 @@ pub struct C06;
 
 pub fn script_world(prop: &str, coin: &str, scripts: Vec<Vec<u8>>, rng: &mut Rng) -> Scenario {
     let mut scn = new_scenario(prop, "scripts", coin);
-    let per_tx = rng.usize(50, 600);
+    // outputs per transaction: mostly 50..600, sometimes exactly at / next to a power of two (batching edges)
+    let per_tx = if rng.chance(1, 4) { *rng.pick(&[255usize, 256, 257, 511, 512, 513, 1023, 1024, 1024, 1025, 2047, 2048, 2049, 4096]) } else { rng.usize(50, 600) };
     let mut txs = vec![];
     for (k, chunk) in scripts.chunks(per_tx).enumerate() {
         let input = if k == 0 {
@@ -84,8 +85,13 @@ pub fn script_world(prop: &str, coin: &str, scripts: Vec<Vec<u8>>, rng: &mut Rng
     }
     scn.layouts = vec![single_file_layout(scn.chain.len())];
     scn.index = index_opts(rng);
+    // where the data lives and whether the default coin is spelled out say nothing about the address format
+    let alias = if rng.chance(1, 3) { Some(rng.pick(&[".bitcoin", "testnet3", ".litecoin", "dogecoin", ".namecoin", "regtest"]).to_string()) } else { None };
+    let omit_coin = coin == "bitcoin" && rng.chance(1, 3);
     for cb in ["csvdump", "simplestats"] {
         let mut r = RunSpec::new(cb);
+        r.dir_alias = alias.clone();
+        r.omit_coin = omit_coin;
         r.threads = pick_threads(rng);
         if rng.chance(1, 3) {
             r.plan.delay = Some((rng.pick(&["asc", "desc", "random"]).to_string(), rng.next() >> 1, rng.range(5, 30)));
